@@ -159,7 +159,7 @@ fn run(args: &[String]) {
         ("property", json::s(&prop)),
         ("tier", json::s(&args[3])),
         ("build", json::s(httparse::_verif::build_info())),
-        ("profile", json::s(if cfg!(debug_assertions) { "vdbg (release + debug-assertions + overflow-checks)" } else { "release" })),
+        ("profile", json::s(match replay::profile_name() { "vdbg" => "vdbg (release + debug-assertions + overflow-checks)", "vovf" => "vovf (release + overflow-checks, no debug assertions)", _ => "release" })),
         ("nodes", st.nodes.to_string()),
         ("edges", st.edges.to_string()),
         ("calls", res.calls.to_string()),
